@@ -1,7 +1,6 @@
 """leaf registry: _services/browser.py QueryScheduler (C10) -- see tools/gen_lean.py for the format.
 
-Only code that exists both before and after the D7 repair is registered here (the translator is
-global: a leaf that fails on the unrepaired tree would break stage T of every property)."""
+The D7 repair (fix commits cd8e981, d9cfacc) is in the tree, so its own tests (`_rearm_if_earlier`) are leaves as well."""
 P = lambda src, name, ty="num": (src, name, ty)
 
 _B = "_services/browser.py"
@@ -37,4 +36,11 @@ LEAVES = [
     ("Browser", "next_is_scheduled", _B, "QueryScheduler._process_ready_types", ("if", "next_scheduled is not None", 0),
      [P("next_scheduled is not None", "has_next", "bool"), P("next_scheduled.when_millis", "next_when"),
       P("next_time_millis", "next_time")], "bool", {}),
+    # _rearm_if_earlier (D7 repair)
+    ("Browser", "rearm_guard", _B, "QueryScheduler._rearm_if_earlier", ("if", "STARTUP_QUERIES", 0),
+     [P("self._next_run is None", "no_next_run", "bool"), P("self._startup_queries_sent", "sent")], "bool", {}),
+    ("Browser", "rearm_when", _B, "QueryScheduler._rearm_if_earlier", ("assign", "next_when_millis", 0),
+     [P("when_millis", "when"), P("self._earliest_next_run_millis", "earliest")], "num", {}),
+    ("Browser", "rearm_lt", _B, "QueryScheduler._rearm_if_earlier", ("if", "next_when_millis", "_next_run_millis", 0),
+     [P("next_when_millis", "next_when"), P("self._next_run_millis", "next_run")], "bool", {}),
 ]
